@@ -514,3 +514,14 @@ End Bundled.
 Lemma ag_caller_view_agrees : forall v : ag_verdict,
   ag_caller_accepts (ag_go_result v) = match v with AgAccept => true | _ => false end.
 Proof. intros []; reflexivity. Qed.
+
+(* the verdict of a call is a function of its keys, messages and signatures only: whatever was
+   verified before (or after) does not matter *)
+Lemma ag_history_independent : forall F f0 f1 fadd fmul feqb n
+    (pre post : list (nat * list (ag_item F))) (c : nat * list (ag_item F)),
+  nth (length pre) (ag_history F f0 f1 fadd fmul feqb n (pre ++ c :: post)) AgPanic
+  = ag_run F f0 f1 fadd fmul feqb n (fst c) (snd c).
+Proof.
+  intros. unfold ag_history. rewrite map_app. rewrite app_nth2; rewrite map_length; [|lia].
+  rewrite Nat.sub_diag. reflexivity.
+Qed.
